@@ -1,39 +1,50 @@
 /-
-C09 — property theorems over the model `Backend` (NV/C09/Model.lean).  PARTIAL.
+C09 — property theorems over the model `Backend` (NV/C09/Model.lean).  PARTIAL only in the sense of the property
+label: the theorems are about the control-flow / bookkeeping model; memory errors inside arbitrary failing tasks, real
+signal delivery and the OS are observed by the sanitizer runs of the correspondence harness.
 
-Proved here (all for every state / script / message, no bounds):
-  * the heart-beat shut-off of error_handler() removes exactly current_heart_beat (`only_failing_hb_removed`,
-    `error_keeps_other_heart_beats`) and nothing when no heart beat is running;
-  * the master handler step of error_handler() (behaviours ok / raise) leaves with the flag protocol intact and touches
-    no pending task (`flags_clear_after_error`, `pending_tasks_preserved`);
-  * the recovery point of backend() keeps every pending task and puts the context chain at its base
-    (`recover_preserves_pending`);
-  * the call_out sweep continues after a failing call_out (`callout_sweep_continues_after_error`);
-  * a connection record that passed the re-validation is live, so the uses after VALIDATE_IP cannot touch a freed
-    record (`freed_conn_never_used`);
-  * the repaired defect 1 at model level: a timer wake-up with all_users == NULL is harmless (`idle_tick_no_crash`).
-
-NOT closed in the time budget (kept as `def ... : Prop`, see notes/C09.md): `Backend_total_Full` - the global invariant
-over all histories (run h never crashes, flags clear and context chain at base after every cycle).  Its runtime
-counterpart is checked on every generated history: the model's `crash` event would appear in the model trace and
-differ from the implementation trace.
+  backend_total, backend_total_prefix   (NV/C09/Total.lean)  no crash, flags clear, context chain at base - every
+                                        history x every oracle x both modes x every master-handler behaviour
+  freed_conn_never_used_run             (NV/C09/Total.lean)  interactive pointers are live at every loop head
+  only_failing_hb_removed, error_keeps_other_heart_beats     the shut-off step removes exactly current_heart_beat
+  flags_clear_after_error               error_handler() restores (in_error, in_mudlib_error_handler) = (0, 0)
+  pending_tasks_preserved               error_handler() leaves buffered commands, call_outs, connections untouched
+  recover_preserves_pending             backend()'s recovery point loses nothing and re-runs nothing
+  callout_sweep_continues_after_error   the call_out sweep does not depend on whether callbacks raised
+  freed_conn_never_used                 re-validation makes the uses after VALIDATE_IP safe
+  idle_tick_no_crash                    repaired defect 1 at model level
+  hooks_keep_invariant                  whatever a task does (any nesting), the invariant survives it
 -/
-import NV.C09.Model
-import NV.C09.Spec
+import NV.C09.Total
 import NV.C09.Lemmas
+import NV.C09.Spec
 
 namespace NV.C09
 
-/-- idle driver: no connection at all, flags clear -/
-def Fresh (w : W) : Prop :=
-  w.users = none ∧ (∀ o, w.inter o = none) ∧ w.inError = false ∧ w.inMeh = false ∧ w.crashed = none ∧
-  w.curHb = none ∧ w.nextUser = 0
+example : Fresh ({} : W) := ⟨rfl, fun _ => rfl, rfl, rfl, rfl, rfl⟩
+example : Fresh ({ mode := .console, meh := .recurse, hbs := [.obj 1, .obj 2],
+                   callouts := [{ owner := .obj 1, tag := "p", due := T0 + 3 }] } : W) :=
+  ⟨rfl, fun _ => rfl, rfl, rfl, rfl, rfl⟩
 
-/-- FULL statement of `backend_total` (not proved; see the header) -/
-def Backend_total_Full : Prop :=
-  ∀ (S : Scripts) (w0 : W) (h : List (List Action)), Fresh w0 →
-    (run S w0 h).crashed = none ∧ (run S w0 h).inError = false ∧ (run S w0 h).inMeh = false ∧
-    (run S w0 h).ctxDepth = 1
+/-- non-vacuity of `backend_total`: a console-mode driver with a recursively failing master handler, two heart
+    beats that raise, a failing call_out, a user whose command destructs itself and a history with ticks before any
+    connection, connects, partial input and disconnects - the theorem applies and gives crash-freedom -/
+example :
+    let S : Scripts := { hook := fun o k => match o, k with
+                            | .obj _, .hb => [.err]
+                            | .obj _, .co _ => [.cerr, .err]
+                            | .user _, .cmd "quit" => [.destMe]
+                            | .user _, .netdead => [.err]
+                            | _, _ => [.ok],
+                         connect := fun k => if k = 2 then .err else .ok }
+    (run S { mode := .console, meh := .recurse, hbs := [.obj 1, .obj 2],
+             callouts := [{ owner := .obj 1, tag := "p", due := T0 + 3 }] }
+      [[.tick 2], [.conn 1], [.send 1 "a/qu"], [.send 1 "it/", .tick 2], [.conn 2], [.close 1], [.cin "x/"]]).crashed = none :=
+  (backend_total _ _ _ ⟨rfl, fun _ => rfl, rfl, rfl, rfl, rfl⟩).1
+
+/-- whatever a task does - at any nesting depth of hooks calling hooks - the invariant survives it -/
+theorem hooks_keep_invariant (S : Scripts) (fuel : Nat) (w : W) (o : Oid) (k : Kind) (i : Inv w) :
+    Inv (runHook S fuel w o k).1 := (runHook_ok S fuel w o k i).1
 
 /-- An error in a heart_beat switches off exactly that object's heart beat: the shut-off step of error_handler()
     erases current_heart_beat from the table and clears it. -/
@@ -61,43 +72,34 @@ theorem error_keeps_other_heart_beats (w : W) (x : Oid) :
 
 example : Oid.obj 1 ∈ (hbOff { hbs := [.obj 1, .obj 2], curHb := some (.obj 2) }).hbs := by decide
 
-/-- error_handler()'s flag protocol (handler behaviours ok / raise): entered with in_error = 0, the master-handler
-    step either returns with nothing changed but the report, or leaves through the nested error with both flags clear
-    and the shut-off done. -/
-theorem flags_clear_after_error (fuel : Nat) (w : W) (msg : String) (h : w.inError = false) (hm : w.meh ≠ .recurse) :
-    (callMasterHandler fuel w msg).1.inError = false ∧
-    ((callMasterHandler fuel w msg).2 = true → (callMasterHandler fuel w msg).1.inMeh = false) := by
-  have hc := callMasterHandler_core fuel w msg h hm
-  cases hr : (callMasterHandler fuel w msg).2 with
-  | true =>
-    have j := hc.2 hr
-    simp only [core, Core.mk.injEq] at j
-    exact ⟨j.1, fun _ => j.2.1⟩
-  | false =>
-    have j := (hc.1 hr).1
-    simp only [core, Core.mk.injEq] at j
-    exact ⟨by rw [j.1, h], fun h' => by simp at h'⟩
+/-- error_handler()'s flag protocol, for EVERY master-handler behaviour (ok / raises / raises recursively): entered
+    with both flags clear it leaves with both flags clear. -/
+theorem flags_clear_after_error (w : W) (msg : String) (h1 : w.inError = false) (h2 : w.inMeh = false) :
+    (errorHandler w msg).inError = false ∧ (errorHandler w msg).inMeh = false := by
+  have s := errorHandler_same w msg h1 h2
+  exact ⟨by rw [s.inError, h1], by rw [s.inMeh, h2]⟩
 
-example : (callMasterHandler 3 { meh := .raise, inMeh := true } "boom").2 = true := by decide
+example : (errorHandler { meh := .recurse } "boom").inError = false :=
+  (flags_clear_after_error _ _ rfl rfl).1
 
-/-- Pending tasks of everybody else survive the error path: the master-handler step of error_handler() leaves the
-    connection table with all buffered commands, the pending call_outs and the error-context depth untouched, and the
-    heart-beat table changes only by the shut-off of current_heart_beat. -/
-theorem pending_tasks_preserved (fuel : Nat) (w : W) (msg : String) (h : w.inError = false) (hm : w.meh ≠ .recurse) :
-    (callMasterHandler fuel w msg).1.users = w.users ∧
-    (callMasterHandler fuel w msg).1.callouts = w.callouts ∧
-    (callMasterHandler fuel w msg).1.ctxDepth = w.ctxDepth ∧
-    ((callMasterHandler fuel w msg).1.hbs = w.hbs ∨ (callMasterHandler fuel w msg).1.hbs = hbsAfterOff w) := by
-  have hc := callMasterHandler_core fuel w msg h hm
-  cases hr : (callMasterHandler fuel w msg).2 with
-  | true =>
-    have j := hc.2 hr
-    simp only [core, Core.mk.injEq] at j
-    exact ⟨j.2.2.2.2.1, j.2.2.2.2.2.1, j.2.2.2.2.2.2.1, Or.inr j.2.2.2.1⟩
-  | false =>
-    have j := (hc.1 hr).1
-    simp only [core, Core.mk.injEq] at j
-    exact ⟨j.2.2.2.2.1, j.2.2.2.2.2.1, j.2.2.2.2.2.2.1, Or.inl j.2.2.2.1⟩
+/-- Pending tasks of everybody else survive the error path: error_handler() leaves the connection table with all
+    buffered commands, every object's connection, the pending call_outs, the set of destructed objects and the
+    error-context depth untouched (the heart-beat table changes only by the shut-off of current_heart_beat, see
+    `only_failing_hb_removed`). -/
+theorem pending_tasks_preserved (w : W) (msg : String) (h1 : w.inError = false) (h2 : w.inMeh = false) :
+    (errorHandler w msg).users = w.users ∧ (errorHandler w msg).inter = w.inter ∧
+    (errorHandler w msg).callouts = w.callouts ∧ (errorHandler w msg).dead = w.dead ∧
+    (errorHandler w msg).ctxDepth = w.ctxDepth ∧ (errorHandler w msg).crashed = w.crashed := by
+  have hp : proj (errorHandler w msg) = proj w := by
+    unfold errorHandler
+    simp only [h1, h2, Bool.false_eq_true, if_false]
+    have hp := cmh_proj 3 (setErr (setMeh (setErr w true) true) false) msg
+    split
+    · exact hp
+    · rw [proj_errExit, hp]; rfl
+  simp only [proj, Prod.mk.injEq] at hp
+  obtain ⟨a, b, _, _, e, _, g, c, d⟩ := hp
+  exact ⟨a, b, c, d, g, e⟩
 
 /-- the recovery point of backend() (restore_context at the setjmp): nothing pending is lost, nothing is re-run,
     the context chain is at its base -/
@@ -119,20 +121,14 @@ theorem callout_sweep_continues_after_error (rh : HookFn) : ∀ (n : Nat) (w : W
     split
     · rfl
     · split
-      · split <;> (simp only []; split <;> first | exact ih _ | (simp only []; exact ih _))
+      · simp only []
+        split <;> exact ih _
       · rfl
 
-/-- Re-validation makes the later uses safe: if every interactive pointer of an object points to a live record
-    (invariant I_a), then after `VALIDATE_IP (ip, command_giver)` succeeded the uses of `ip` do not touch a freed
-    record. -/
-theorem freed_conn_never_used (w : W) (o : Oid) (id : Nat)
-    (inv : ∀ o id, w.inter o = some id → (findConn w id).isSome = true)
-    (hvalid : w.inter o = some id) : (useConn w id).crashed = w.crashed := by
-  unfold useConn
-  have := inv o id hvalid
-  cases h : findConn w id with
-  | some c => rfl
-  | none => simp [h] at this
+/-- Re-validation makes the later uses safe: under the invariant, after `VALIDATE_IP (ip, command_giver)` succeeded
+    the uses of `ip` do not touch a freed record. -/
+theorem freed_conn_never_used (w : W) (o : Oid) (id : Nat) (inv : Inv w) (hvalid : w.inter o = some id) :
+    useConn w id = w := useConn_valid w o id inv hvalid
 
 /-- repaired defect 1 at model level: the first timer wake-up of an idle driver (all_users == NULL) -/
 theorem idle_tick_no_crash (S : Scripts) (rh : HookFn) (w : W) (h : w.users = none) :
